@@ -14,6 +14,7 @@ import (
 	"time"
 
 	"github.com/hashicorp/eventlogger/filters/encrypt"
+	"google.golang.org/protobuf/types/known/structpb"
 	"google.golang.org/protobuf/types/known/wrapperspb"
 	"pgregory.net/rapid"
 )
@@ -38,6 +39,7 @@ const (
 	KIfaces  = "[]iface"
 	KMap     = "map"
 	KTMap    = "taggable-map"
+	KPBStruct = "*structpb.Struct"
 )
 
 // Map value layouts.
@@ -60,6 +62,7 @@ type Shape struct {
 	MT    string
 	N     int  // element count of slices
 	Nil   bool // nil pointer / nil slice / nil map / nil interface
+	Ign   bool // (*struct kinds) the pointer type is listed in Filter.IgnoreTypes
 	Empty bool // empty string / empty (non-nil) slice
 }
 
@@ -84,6 +87,9 @@ func (s *Shape) write(sb *strings.Builder) {
 	}
 	if s.HasT {
 		fmt.Fprintf(sb, "`%s`", s.Tag)
+	}
+	if s.Ign {
+		sb.WriteString("(ignored-type)")
 	}
 	if s.Nil {
 		sb.WriteString("(nil)")
@@ -120,6 +126,8 @@ func (s *Shape) write(sb *strings.Builder) {
 			k.write(sb)
 		}
 		sb.WriteString("]")
+	case KPBStruct:
+		fmt.Fprintf(sb, "{%d string values}", len(s.Keys))
 	case KMap, KTMap:
 		sb.WriteString("{")
 		for i, k := range s.Kids {
@@ -181,7 +189,7 @@ func genLeaf(t *rapid.T, kinds []string) *Shape {
 func genField(t *rapid.T, depth int) *Shape {
 	choices := []string{"leaf", "leaf", "leaf", "leaf", "inert"}
 	if depth > 0 {
-		choices = append(choices, KStruct, KPStruct, KStructs, KPStrcts, KIface, KIfaces, KMap, KMap, KTMap)
+		choices = append(choices, KStruct, KPStruct, KPStruct, KStructs, KPStrcts, KIface, KIfaces, KMap, KMap, KTMap, KPBStruct)
 	}
 	var s *Shape
 	switch c := rapid.SampledFrom(choices).Draw(t, "fieldKind"); c {
@@ -195,6 +203,16 @@ func genField(t *rapid.T, depth int) *Shape {
 		if c != KStruct {
 			s.Nil = rapid.IntRange(0, 9).Draw(t, "nilPtr") == 0
 		}
+		if c == KPStruct {
+			s.Ign = rapid.IntRange(0, 7).Draw(t, "ignoredType") == 0
+		}
+	case KPBStruct:
+		s = &Shape{K: KPBStruct}
+		n := rapid.IntRange(0, 3).Draw(t, "nkeys")
+		for i := 0; i < n; i++ {
+			s.Keys = append(s.Keys, fmt.Sprintf("p%d", i))
+		}
+		s.Nil = rapid.IntRange(0, 9).Draw(t, "nilPtr") == 0
 	case KStructs, KPStrcts:
 		s = &Shape{K: c, N: rapid.IntRange(0, 2).Draw(t, "n"), Kids: []*Shape{genStruct(t, depth-1)}}
 	case KIfaces:
@@ -463,6 +481,7 @@ var (
 	tWBytes  = reflect.TypeOf(&wrapperspb.BytesValue{})
 	tTMap    = reflect.TypeOf(TMapT(nil))
 	tMSI     = reflect.TypeOf(map[string]interface{}(nil))
+	tPBStruct = reflect.TypeOf(&structpb.Struct{})
 	baseTime = time.Date(2026, 3, 4, 5, 6, 7, 8, time.UTC)
 )
 
@@ -505,6 +524,8 @@ func typeOf(s *Shape) reflect.Type {
 		return reflect.SliceOf(tMSI)
 	case KTMap:
 		return tTMap
+	case KPBStruct:
+		return tPBStruct
 	case KMap:
 		switch s.MT {
 		case MSI:
